@@ -129,6 +129,8 @@ PROPS["C03"] = dict(
     level_note=_mw_note + " In the trace direction (samples up to 300 values, limits changed mid-history) TLC decides U, errors, the method switch-over, twin laws and - for pools up to DPMaxN - the exact P; the numeric value of the approximate P at large sizes is decided in the replay direction on small pools only (the formula is size-independent).",
     stages=[dict(name="gen", kind="gen", module="MannWhitney.tla", cfg="MW_gen.cfg",
                  consts=dict(MaxN={"quick": 7, "thorough": 9}, CrossN={"quick": 6, "thorough": 7}, Configs="ConfigsSix", StartT="StartEmpty")),
+            dict(name="large", kind="gen", family="mwlarge", module="MWLarge.tla", cfg="MWLarge.cfg", workers=6,
+                      consts=dict(Sizes={"quick": "SizesQuick", "thorough": "SizesThorough"}), timeout={"quick": 600, "thorough": 3000}),
             dict(name="trace", kind="trace", module="MannWhitneyTrace.tla", cfg="MannWhitneyTrace.cfg",
                       consts=dict(DPMaxN={"quick": 12, "thorough": 18}),
                       record_args={"quick": ["-n", 24, "-calls", 5, "-max", 80], "thorough": ["-n", 480, "-calls", 8, "-max", 300]})],
